@@ -306,17 +306,19 @@ fn judge(c: &Cell, out: &[u8], err: &[u8]) -> Option<(String, String)> {
             i += 1;
         }
     }
-    // every highlighted group of a styled level carries exactly one style and one reset; Debug carries none:
-    // line 1 has one group, line 2 has the nested pair and three groups with width specs
+    // Which levels the library styles is its own choice; what is fixed: a level is styled in every group or in
+    // none, and a styled group carries exactly one style and one reset.  Line 1 has one group, line 2 has the
+    // nested pair and three groups with width specs (five groups).
     let lines: Vec<&[u8]> = target_bytes.split(|x| *x == b'\n').collect();
     for (k, l) in LEVELS.iter().enumerate() {
-        for (li, groups) in [(2 * k, 1usize), (2 * k + 1, 5usize)] {
-            let line = lines.get(li).copied().unwrap_or(&[]);
-            let n = line.iter().filter(|b| **b == 0x1b).count();
-            let want = if *l == Level::Debug { 0 } else { 2 * groups };
-            if n != want {
-                return Some(("highlight:style-presence".into(), format!("level {}, line {}: {} escape sequences, expected {} (one style and one reset per highlighted group): {:?}", l, li % 2 + 1, n, want, String::from_utf8_lossy(line))));
-            }
+        let count = |li: usize| lines.get(li).copied().unwrap_or(&[]).iter().filter(|b| **b == 0x1b).count();
+        let single = count(2 * k);
+        if single != 0 && single != 2 {
+            return Some(("highlight:style-presence".into(), format!("level {}: the single highlighted group carries {} escape sequences, expected none or one style and one reset: {:?}", l, single, String::from_utf8_lossy(lines.get(2 * k).copied().unwrap_or(&[])))));
+        }
+        let five = count(2 * k + 1);
+        if five != 5 * single {
+            return Some(("highlight:style-presence".into(), format!("level {}: a single group carries {} escape sequences but the line with five groups carries {} (expected {}): {:?}", l, single, five, 5 * single, String::from_utf8_lossy(lines.get(2 * k + 1).copied().unwrap_or(&[])))));
         }
     }
     None
